@@ -82,6 +82,25 @@ def oracle(tier):
             fails.append({'cause': 'oracle', 'clause': 'sql expression text verbatim inside parentheses (%s)' % bad[0],
                           'input': {'kind': 'expression-text', 'text_hex': hexs(t), 'text': t}, 'got': hexs(bad[1])})
             break
+    # expression text written between backticks is stored verbatim (no escape processing at all) and passed through
+    from pydbml import PyDBML
+    samples = ["E'\\t|\\n'", "'\\x2f'", '\\0', '\\u0041', "regexp_replace(a, '[\\t\\n]+', ' ')", 'a\\', '\\\\', "'\\folder\\name'", '\\r\\f']
+    for t in list(all_strings(['a', '\\', 't', 'n', "'", '('], 3 if tier == 'quick' else 5)) + samples:
+        if not t or '`' in t:
+            continue
+        n += 1
+        doc = 'Table t {\n  id int [default: `%s`]\n  indexes {\n    (`%s`)\n  }\n}\n' % (t, t)
+        try:
+            d = PyDBML(doc)
+            col = d.tables[0].columns[0]
+            got = (getattr(col.default, 'text', col.default), getattr(d.tables[0].indexes[0].subjects[0], 'text', None))
+            sql_ok = ('DEFAULT (' + t + ')') in d.sql
+        except Exception as e:   # noqa
+            got, sql_ok = ('raise ' + type(e).__name__, None), True
+        if got != (t, t) or not sql_ok:
+            fails.append({'cause': 'oracle', 'clause': 'expression text between backticks is stored and passed to SQL verbatim',
+                          'input': {'kind': 'expression-text', 'text_hex': hexs(t), 'text': t}, 'got': repr(got)[:300]})
+            break
     return fails, {'oracle_inputs': n, 'oracle_distinct_nontrivial': len(nontriv)}
 
 
